@@ -215,6 +215,9 @@ func (g *jgen) val(t reflect.Type, depth int) reflect.Value {
 	case reflect.TypeOf(json.RawMessage(nil)):
 		if h.Intn(4) != 0 {
 			v.SetBytes([]byte(h.Pick([]string{`1`, `"x"`, `{ "a" : [1, 2] }`, ` null `, `{"<":"&"}`, "[\n1\t]", `{`, `1 2`, ``, `tru`, "\"\u2028\""})))
+			if !stdjson.Valid(v.Bytes()) {
+				g.feat("badraw")
+			}
 		}
 		return v
 	case reflect.TypeOf(time.Time{}):
